@@ -824,6 +824,26 @@ pub fn generate(thorough: bool, seed: u64, out: &mut dyn Write) {
             truncations(&s, &vec![], 4096, 0, &mut rng, emit_for!(op));
             let sp: [&[u8]; 9] = [b"\t", b"\r\n", b"\r", b"\n", b",", b"-", b"x", b"99999999999999999999", "\u{e9}".as_bytes()];
             text_mutations(&s, &sp, if thorough { 1 } else { 5 }, emit_for!(op));
+            // characters whose lower- / upper-case form has a different UTF-8 length (U+0130, U+212A,
+            // U+1E9E, U+FB01) in front of the list, inside it and in front of a list cut right behind
+            // its length header: a byte index found in a case-mapped copy must never slice the original
+            let hdr = s.windows(16).position(|w| w == b"X-Patch-Length: ").unwrap_or(0);
+            for pre in ["\u{130}", "\u{212a}", "\u{1e9e}", "\u{fb01}", "\u{130}\u{130}\u{130}", "x\u{212a}y", "\u{130}\u{212a}"] {
+                for at in [0usize, hdr, hdr + 16, s.len()] {
+                    let at = at.min(s.len());
+                    let mut v = s[..at].to_vec();
+                    v.extend_from_slice(pre.as_bytes());
+                    v.extend_from_slice(&s[at..]);
+                    writeln!(out, "{} {}", op, hex(&v)).unwrap();
+                }
+                for cut in [hdr + 15, hdr + 16, hdr + 17, hdr + 18, hdr + 20] {
+                    let mut v = pre.as_bytes().to_vec();
+                    v.extend_from_slice(&s[..cut.min(s.len())]);
+                    writeln!(out, "{} {}", op, hex(&v)).unwrap();
+                    v.extend_from_slice(pre.as_bytes());
+                    writeln!(out, "{} {}", op, hex(&v)).unwrap();
+                }
+            }
         }
         // numeric columns
         let s = String::from_utf8(seed_patchlist(game, 1)).unwrap();
